@@ -46,6 +46,9 @@ TRUSTED = [
     "data_received after transport.close())",
     "M6 is never a delayed response: checked on the source (AST: only handle_resource assigns response.task) and by "
     "complete real pair-setup runs of the reference controller (harness/ref/pairsetup_client.py, srp_client.py)",
+    "application subclasses of AccessoryDriver / Accessory / Bridge overriding the public hooks (pair, unpair, finish_pair, "
+    "config_changed, update_advertisement, async_update_advertisement, async_persist, setup_message) in the call-super style "
+    "with the documented return values are a dimension of the rig (event scripts, lives, restart pairs); same model, same oracle",
     "harness generators, harness/ref/dnslabel.py, harness/ref/xhm.py (independent oracles); a well-formed MAC "
     "(XX:XX:XX:XX:XX:XX); safe_mode is a parameter of the event model (ordering for both values, flag tracking for the "
     "default, C18_safe_mode_no_pairing_refresh for True) and scripts with safe_mode are tied but their staleness is not judged",
@@ -413,12 +416,13 @@ def mutate_config(rng, cfg: Dict[str, Any]):
     return "identical", json.loads(json.dumps(cfg)), False
 
 
-def build_accessories(m, driver, cfg):
+def build_accessories(m, driver, cfg, app="stock"):
     """Real pyhap objects for a config descriptor; returns (root accessory, all leaf accessories)."""
     A = m.accessory
+    _drv_cls, acc_cls, bridge_cls = app_classes(m, app)
     leaves = []
     for a in cfg["accs"]:
-        acc = A.Accessory(driver, a["name"], aid=a["aid"])
+        acc = acc_cls(driver, a["name"], aid=a["aid"])
         built = []
         for s in a["services"]:
             svc = acc.add_preload_service(s["type"], chars=list(s["opt"]))
@@ -436,7 +440,7 @@ def build_accessories(m, driver, cfg):
                 svc.add_linked_service(built[s["linked"]])
         leaves.append(acc)
     if cfg["bridge"]:
-        root = A.Bridge(driver, "Bridge")
+        root = bridge_cls(driver, "Bridge")
         for acc in leaves:
             root.add_accessory(acc)
     else:
@@ -535,9 +539,88 @@ def spin(loop):
     loop.run_forever()
 
 
+# ----------------------------------------------------------------------------- application subclasses (rig dimension)
+#
+# Integrations subclass AccessoryDriver / Accessory and override the public hook methods in the usual style:
+# call super(), do their own bookkeeping, and return what the method is DOCUMENTED to return (pair: the bool of
+# super(); unpair, finish_pair, config_changed, update_advertisement, setup_message: nothing).  Such a subclass
+# behaves like the stock class in every observable C18 speaks about, so every stream that runs pairing histories
+# or starts is also run with it; model and oracle are the same as for the stock class.
+
+APP_FLAVOURS = ["stock", "pairing-hooks", "all-hooks"]
+_APP_CLASSES: Dict[Any, Any] = {}
+
+
+def app_classes(m, flavour: str):
+    """(driver class, accessory class, bridge class) of an application of the given flavour."""
+    key = (id(m.accessory_driver), flavour)
+    if key in _APP_CLASSES:
+        return _APP_CLASSES[key]
+    AD, A = m.accessory_driver.AccessoryDriver, m.accessory
+    if flavour == "stock":
+        classes = (AD, A.Accessory, A.Bridge)
+    else:
+        class AppDriver(AD):
+            """pair / unpair hooks as an integration writes them (notifications, bookkeeping)"""
+
+            def __init__(self, **kwargs):
+                super().__init__(**kwargs)
+                self.app_log: List[str] = []
+
+            def pair(self, client_username_bytes, client_public, client_permissions):
+                ok = super().pair(client_username_bytes, client_public, client_permissions)
+                self.app_log.append("paired" if ok else "pair refused")
+                return ok
+
+            def unpair(self, client_uuid):  # documented without a return value
+                super().unpair(client_uuid)
+                if not self.state.paired:
+                    self.app_log.append("show setup code")
+
+        if flavour == "all-hooks":
+            class AppDriver(AppDriver):  # type: ignore[no-redef]
+                def finish_pair(self):
+                    super().finish_pair()
+                    self.app_log.append("finish_pair")
+
+                def config_changed(self):
+                    super().config_changed()
+                    self.app_log.append("config_changed")
+
+                def update_advertisement(self):
+                    super().update_advertisement()
+                    self.app_log.append("update_advertisement")
+
+                def async_update_advertisement(self):
+                    super().async_update_advertisement()
+                    self.app_log.append("async_update_advertisement")
+
+                def async_persist(self):
+                    super().async_persist()
+                    self.app_log.append("async_persist")
+
+        class AppAccessory(A.Accessory):
+            def setup_message(self):
+                super().setup_message()
+                self.driver.app_log.append("setup_message")
+
+            async def run(self):
+                await super().run()
+
+        class AppBridge(A.Bridge):
+            def setup_message(self):
+                super().setup_message()
+                self.driver.app_log.append("setup_message")
+
+        classes = (AppDriver, AppAccessory, AppBridge)
+    _APP_CLASSES[key] = classes
+    return classes
+
+
 @contextlib.contextmanager
-def real_driver(m, persist_file=None, patch_persist=True):
-    """A real AccessoryDriver on a private loop with a recording advertiser and a controlled executor."""
+def real_driver(m, persist_file=None, patch_persist=True, app="stock"):
+    """A real AccessoryDriver (or an application subclass of it, see `app_classes`) on a private loop with a
+    recording advertiser and a controlled executor."""
     loop = asyncio.new_event_loop()
     asyncio.set_event_loop(loop)
     ex = CtlExecutor()
@@ -549,12 +632,12 @@ def real_driver(m, persist_file=None, patch_persist=True):
     if patch_persist:
         stack.enter_context(patch("pyhap.accessory_driver.AccessoryDriver.persist", new=lambda self: None))
     try:
-        driver = m.accessory_driver.AccessoryDriver(
+        driver = app_classes(m, app)[0](
             loop=loop, address="127.0.0.1", mac=MAC, pincode=b"031-45-154", port=51234,
             persist_file=persist_file or "/nonexistent/c18.state", loader=_loader(m),
         )
         driver.advertiser = RecAdvertiser(events, driver.state)
-        yield SimpleNamespace(driver=driver, loop=loop, ex=ex, events=events)
+        yield SimpleNamespace(driver=driver, loop=loop, ex=ex, events=events, app=app)
     finally:
         stack.close()
         try:
@@ -588,20 +671,21 @@ def impl_restart(m, case) -> Dict[str, Any]:
     tmp = tempfile.mkdtemp(prefix="c18-restart-")
     pf = os.path.join(tmp, "accessory.state")
     try:
-        with real_driver(m, pf, patch_persist=False) as env:
+        app = case.get("app", "stock")
+        with real_driver(m, pf, patch_persist=False, app=app) as env:
             if case.get("cfg0") is not None:
                 env.driver.state.config_version = case["cfg0"]
-            root, _ = build_accessories(m, env.driver, case["a"])
+            root, _ = build_accessories(m, env.driver, case["a"], app)
             env.driver.add_accessory(root)
             start_driver(env)
             c1, h1 = env.driver.state.config_version, env.driver.state.accessories_hash
             adv1 = env.events[0]["c#"] if env.events else None
             db1 = abstract_db(root)
             env.driver.persist()
-        with real_driver(m, pf, patch_persist=False) as env:
+        with real_driver(m, pf, patch_persist=False, app=app) as env:
             env.driver.load()
             loaded = env.driver.state.config_version
-            root, _ = build_accessories(m, env.driver, case["b"])
+            root, _ = build_accessories(m, env.driver, case["b"], app)
             env.driver.add_accessory(root)
             start_driver(env)
             c2, h2 = env.driver.state.config_version, env.driver.state.accessories_hash
@@ -771,7 +855,8 @@ def gen_life(rng) -> Dict[str, Any]:
             else:
                 ops.append(["mutate", rng.choice(["add-service", "override", "add-accessory"]), rng.randrange(1000)])
         procs.append({"kind": kind, "cfg": json.loads(json.dumps(cur)), "ops": ops})
-    return {"cfg0": rng.choice([None, None, 65535, 65534, 65533, rng.randrange(1, 65536)]), "procs": procs}
+    return {"cfg0": rng.choice([None, None, 65535, 65534, 65533, rng.randrange(1, 65536)]), "procs": procs,
+            "app": rng.choice(["stock", "stock", "all-hooks", "pairing-hooks"])}
 
 
 def boundary_lives() -> List[Dict[str, Any]]:
@@ -840,9 +925,10 @@ def impl_life(m, life) -> Dict[str, Any]:
             with real_driver(m, pf, patch_persist=False) as env:
                 env.driver.state.config_version = life["cfg0"]
                 env.driver.persist()
+        app = life.get("app", "stock")
         for proc in life["procs"]:
-            with real_driver(m, pf, patch_persist=False) as env:
-                root, leaves = build_accessories(m, env.driver, proc["cfg"])
+            with real_driver(m, pf, patch_persist=False, app=app) as env:
+                root, leaves = build_accessories(m, env.driver, proc["cfg"], app)
                 env.driver.add_accessory(root)  # loads the file, or writes the fresh state
                 start_driver(env)
                 reg = env.events[0] if env.events else None
@@ -1087,7 +1173,8 @@ def gen_sys_script(rng, big=False) -> Dict[str, Any]:
             steps.append({"step": "taskDone", "i": 0})
             busy.pop(0)
     steps.append({"step": "quiesce"})
-    script = {"paired": paired, "conns": conns, "steps": steps, "acc": gen_sys_acc(rng)}
+    script = {"paired": paired, "conns": conns, "steps": steps, "acc": gen_sys_acc(rng),
+              "app": rng.choice(["stock", "stock", "pairing-hooks", "all-hooks"])}
     if rng.random() < 0.08:
         script["safe_mode"] = True  # the driver's documented switch: finish_pair leaves the advertisement alone
     return script
@@ -1108,7 +1195,7 @@ def gen_real_script(rng) -> Dict[str, Any]:
         if rng.random() < 0.6:
             steps += [{"step": "request", "conn": 0, "req": "m5real", "client": (c0 + 1) % 3}] + sched()
     steps.append({"step": "quiesce"})
-    return {"paired": [], "conns": conns, "steps": steps, "acc": gen_sys_acc(rng)}
+    return {"paired": [], "conns": conns, "steps": steps, "acc": gen_sys_acc(rng), "app": rng.choice(APP_FLAVOURS)}
 
 
 BOUNDARY_SCRIPTS = [
@@ -1253,7 +1340,8 @@ def impl_sys(m, script) -> Dict[str, Any]:
     """Run one event script on the real HAPServerProtocol / AccessoryDriver; returns the event log."""
     H = m.hap_handler
     tlv = m.tlv
-    with real_driver(m) as env:
+    app = script.get("app", "stock")
+    with real_driver(m, app=app) as env:
         driver, loop, ex, events = env.driver, env.loop, env.ex, env.events
 
         class PassThroughCrypto:  # transparent stand-in for HAPCrypto (framing is C04/C05's subject)
@@ -1275,7 +1363,7 @@ def impl_sys(m, script) -> Dict[str, Any]:
         for c, adm in script["paired"]:
             driver.state.add_paired_client(_uname(c), bytes([c + 1]) * 32, b"\x01" if adm else b"\x00")
         ident = script.get("acc") or DEFAULT_SYS_ACC
-        acc = m.accessory.Accessory(driver, ident["name"])
+        acc = app_classes(m, app)[1](driver, ident["name"])
         acc.category = ident["category"]
         driver.add_accessory(acc)
         with patch("pyhap.hap_protocol.HAPCrypto", PassThroughCrypto):
@@ -1797,7 +1885,8 @@ def run(ctx: Ctx):
         a = gen_config(rng)
         kind, b, changed = mutate_config(rng, a)
         case = {"a": a, "b": b, "kind": kind, "changed": changed,
-                "cfg0": rng.choice([None, None, 65534, 65535, 65533, rng.randrange(1, 65536)])}
+                "cfg0": rng.choice([None, None, 65534, 65535, 65533, rng.randrange(1, 65536)]),
+                "app": rng.choice(["stock", "stock", "all-hooks"])}
         got = impl_restart(m, case)
         oracle_restart(ctx, case, got)
         # model: the two set_accessories_hash calls of the two starts
@@ -1829,6 +1918,7 @@ def run(ctx: Ctx):
                               "ops": [[o[0] for o in p["ops"]] for p in life["procs"]]}, lambda a: a.get("ok")))
         st.case(["l", life], len(got["obs"]) > len(life["procs"]) or any(p["kind"] != "identical" for p in life["procs"][1:]))
         st.hit("op", "life")
+        st.hit("outcome", "life-driver-class-" + life.get("app", "stock"))
         for o in got["model_ops"]:
             st.hit("op", "life-" + o[0])
         for k in range(1, len(got["starts"])):
@@ -1862,6 +1952,8 @@ def run(ctx: Ctx):
 
     # --- ordering scripts
     scripts = [json.loads(json.dumps(s)) for s in BOUNDARY_SCRIPTS]
+    for k, bs in enumerate(BOUNDARY_SCRIPTS):  # the same histories on an application subclass of the driver
+        scripts.append({**json.loads(json.dumps(bs)), "app": APP_FLAVOURS[1 + k % 2]})
     for _ in range(ctx.n(400, 8000)):
         scripts.append(gen_sys_script(rng, big=not ctx.quick and rng.random() < 0.3))
     for _ in range(ctx.n(4, 40)):
@@ -1884,6 +1976,7 @@ def run(ctx: Ctx):
         st.hit("outcome", "sys-pairing-changed" if changing else "sys-no-change")
         if script.get("safe_mode"):
             st.hit("outcome", "sys-safe-mode-script")
+        st.hit("outcome", "sys-driver-class-" + script.get("app", "stock"))
         st.hit("outcome", "sys-publishes", sum(1 for e in got["events"] if e["ev"] == "publish"))
         st.hit("outcome", "sys-sessions-closed", len(got["closed"]))
         if got.get("printed_payload") is not None:
